@@ -17,6 +17,7 @@ EXPLANATION = (
     " R04.5 the three time options are parsed into their own fields (expansion rules restricted to max_time/min_time/skip_ext_time)."
     " R04.6 (= R03.4) the remaining-sample counter counts recorded samples only: None while tuning, started from sample_count when collection starts.")
 EXPLANATION += (' R04.7 (= R15.12) --skip-ext-time given without a value is read by occurrence and stored as Some(true).')
+EXPLANATION += (' R04.8 (= R15.3) the command line relates only the documented mode switches: --max-time never drops --min-time.')
 NOT_DECIDED = ["agreement of the executed round count with a given clock history (needs a scripted clock - runtime family)"]
 
 # canonical atoms of the documented condition: continue  <=>  A and (B or C)
